@@ -202,12 +202,48 @@ pub fn gen(rng: &mut Rng, n: usize, out: &mut Vec<String>) {
                     continue;
                 }
             };
+            let case = retarget(&s, case, rng);
             if let Some(l) = one_case(&s, &case, rng, stranger, risk_admin) {
                 out.push(l);
             }
             // the scenario itself moves on along the unperturbed instruction
             let _ = s.step(&act, &mut scratch);
         }
+    }
+}
+
+/// most generated repayments name a bank the user owes nothing in (or more than is owed), most borrows a bank the user holds a
+/// deposit in: three times out of four such a case is re-aimed at a (user, bank) pair where the instruction can go through —
+/// a repayment of part / exactly / all of an existing debt, a borrow from a bank the user holds no deposit in
+fn retarget(s: &Scen, c: Case, rng: &mut Rng) -> Case {
+    if !rng.chance(3, 4) { return c; }
+    match c.op {
+        "wd.rep" => {
+            let mut owed = vec![];
+            for (ui, us) in s.users.iter().enumerate() {
+                let a = s.w.marginfi_account(&us.acct);
+                for (bi, h) in s.banks.iter().enumerate() {
+                    if let Some(bal) = a.lending_account.get_balance(&h.bank) {
+                        let sh = bits(bal.liability_shares);
+                        if sh >= ONE {
+                            let debt: u64 = ((num_bigint::BigInt::from(sh) * num_bigint::BigInt::from(bits(s.w.bank(&h.bank).liability_share_value))) >> 96u32).try_into().unwrap_or(u64::MAX);
+                            owed.push((ui, bi, debt));
+                        }
+                    }
+                }
+            }
+            if owed.is_empty() { return c; }
+            let (u, b, debt) = *rng.pick(&owed);
+            let (amount, flag) = match rng.below(5) { 0 => (0, true), 1 => (debt, false), 2 => (debt.saturating_add(1), false), 3 => (1, false), _ => (1 + rng.below(debt.max(1)), false) };
+            Case { op: "wd.rep", u, b, amount, flag }
+        }
+        "wd.bor" => {
+            let a = s.w.marginfi_account(&s.users[c.u].acct);
+            let free: Vec<usize> = (0..s.banks.len()).filter(|bi| a.lending_account.get_balance(&s.banks[*bi].bank).map(|x| bits(x.asset_shares) < ONE).unwrap_or(true)).collect();
+            if free.is_empty() { return c; }
+            Case { b: *rng.pick(&free), ..c }
+        }
+        _ => c,
     }
 }
 
